@@ -20,6 +20,7 @@ CURATED = {
     "protonation": "[CH3:1][N:2]([H:3])[H:4].[H+:5]>>[CH3:1][N+:2]([H:3])([H:4])[H:5]",
     "deprotonation": "[CH3:1][C:2](=[O:3])[O:4][H:5].[O-:6][H:7]>>[CH3:1][C:2](=[O:3])[O-:4].[H:5][O:6][H:7]",
     "hydride_addition": "[CH3:1][C:2]([H:6])=[O:3].[H-:4]>>[CH3:1][C:2]([H:6])([H:4])[O-:3]",
+    "acylation_dmap": "[CH3:1][C:2](=[O:3])[Cl:4].[CH3:5][O:6][H:7].[CH3:8][N:9]([CH3:10])[c:11]1[cH:12][cH:13][n:14][cH:15][cH:16]1>>[CH3:1][C:2](=[O:3])[O:6][CH3:5].[Cl-:4].[CH3:8][N:9]([CH3:10])[c:11]1[cH:12][cH:13][n+:14]([H:7])[cH:15][cH:16]1",
     "transesterification": "[CH3:1][C:2](=[O:3])[O:4][CH3:5].[CH3:6][CH2:7][O:8][H:9]>>[CH3:1][C:2](=[O:3])[O:8][CH2:7][CH3:6].[CH3:5][O:4][H:9]",
 }
 
